@@ -19,7 +19,7 @@ def const_value(v):
     raise ValueError(f"split value {v!r}")
 
 
-def fresh_of(ex, st, shape, name):
+def fresh_of(ex, st, shape, name, scope=None):
     """shape grammar:  int | nat | bool | str | char | digit | digits | bits | list_int | list_char | nd_int | nd_bool | none |
     tuple(a,b,..) | mat(rows,cols) | accessor(k) | obj:<Class> | false | true"""
     shape = shape.strip()
@@ -34,7 +34,7 @@ def fresh_of(ex, st, shape, name):
                 depth -= ch == ")"
                 cur += ch
         parts.append(cur)
-        return Tup([fresh_of(ex, st, p, f"{name}_{k}") for k, p in enumerate(parts)])
+        return Tup([fresh_of(ex, st, p, f"{name}_{k}", scope) for k, p in enumerate(parts)])
     if shape in ("int", "nat"):
         v = fresh(name)
         if shape == "nat":
@@ -70,11 +70,18 @@ def fresh_of(ex, st, shape, name):
         return s
     if shape.startswith("mat(") and shape.endswith(")"):
         r_, c_ = shape[4:-1].rsplit(",", 1)
-        rows = ex.spec_eval(r_, st)
-        cols = ex.spec_eval(c_, st)
+        rows = ex.spec_eval(r_, scope or st)
+        cols = ex.spec_eval(c_, scope or st)
         return Mat(fresh(name, A2), rows, cols)
     if shape.startswith("obj:"):
         return make_obj(ex, st, shape[4:], name)
+    if shape.startswith("strs[") and shape.endswith("]"):          # a list of that many strings (kept as a tuple of symbolic strings)
+        out = []
+        for k_ in range(int(shape[5:-1])):
+            m_ = fresh_seq(f"{name}_{k_}", "str", "char")
+            st.assume(m_.n >= 0)
+            out.append(m_)
+        return Tup(out)
     if shape == "arr":
         return fresh(name, A)
     if shape == "arr2":
@@ -123,6 +130,8 @@ def make_local_filter(ex, st, name):
 
 def make_self(ex, st):
     cls = ex.c.get("self_class")
+    if cls == "new":
+        return Obj(ex.c.get("self_new", "object"), {})
     if cls is None:
         raise ValueError("method contract without self_class")
     return make_obj(ex, st, cls, "self")
